@@ -98,8 +98,34 @@ func c10r1(c *Ctx, id string) {
 				cmp = w.Origin(call.Common().Args[1])
 			}
 		})
+		updated := false
 		if ok && strings.HasPrefix(cmp, "recv.") {
-			c.OK(id, construct, s.Call.Pos(), "dominated by IsChanged(%s)=true on the published value", cmp)
+			// the value compared against must track what was announced: assigned the published value before the publish,
+			// or maintained by a listener of the same type subscribed to the topic
+			fieldName := strings.TrimPrefix(cmp, "recv.")
+			allInstrs(s.Fn, func(in ssa.Instruction) {
+				if st, isSt := in.(*ssa.Store); isSt && w.Origin(st.Addr) == "&recv."+fieldName && unwrap(st.Val) == x && dominatesInstr(st, s.Call) {
+					updated = true
+				}
+			})
+			if !updated && s.Fn.Signature.Recv() != nil {
+				rt := recvTypeName(s.Fn.Signature.Recv().Type())
+				for _, g := range w.ModFuncs {
+					if g.Signature.Recv() == nil || recvTypeName(g.Signature.Recv().Type()) != rt || len(g.Params) != 2 {
+						continue
+					}
+					allInstrs(g, func(in ssa.Instruction) {
+						if st, isSt := in.(*ssa.Store); isSt && w.Origin(st.Addr) == "&recv."+fieldName && w.Origin(st.Val) == "param("+g.Params[1].Name()+")" && len(w.usesAsValue(g)) > 0 {
+							updated = true
+						}
+					})
+				}
+			}
+		}
+		if ok && strings.HasPrefix(cmp, "recv.") && !updated {
+			c.Fail(id, construct, s.Call.Pos(), "the membership compared against (%s) is never updated with what was announced: every repetition of the same membership is announced again and interrupts the stream", cmp)
+		} else if ok && strings.HasPrefix(cmp, "recv.") {
+			c.OK(id, construct, s.Call.Pos(), "dominated by IsChanged(%s)=true on the published value; %s tracks the announced value", cmp, cmp)
 		} else {
 			c.Fail(id, construct, s.Call.Pos(), "membership published without the change test on the published value (compared with %q): a repeated membership would interrupt the stream", cmp)
 		}
